@@ -10,6 +10,30 @@ import time
 REPO = os.environ.get("VERIF_REPO", "/repo")
 VERIF = os.path.dirname(os.path.dirname(os.path.abspath(__file__)))
 BUILD = os.path.join(VERIF, "build")
+# a run against another copy of the repository (VERIF_REPO=<dir>: seeded-change runs in a scratch worktree) gets its own target
+# directories, locks and copies of the path-dependent helper crates, so that it cannot disturb a run against /repo
+ALT = "" if os.path.realpath(REPO) == "/repo" else "-alt" + hashlib.sha256(os.path.realpath(REPO).encode()).hexdigest()[:8]
+
+
+def bdir(name):
+    return os.path.join(BUILD, name + ALT)
+
+
+def crate_dir(name):
+    """directory of a helper crate of /verif with a path dependency on the repository (replay, kani)"""
+    src = os.path.join(VERIF, name)
+    if not ALT:
+        return src
+    import shutil
+    dst = os.path.join(BUILD, "altcrates" + ALT, name)
+    os.makedirs(os.path.join(dst, "src"), exist_ok=True)
+    for fn in os.listdir(os.path.join(src, "src")):
+        shutil.copy(os.path.join(src, "src", fn), os.path.join(dst, "src", fn))
+    toml = open(os.path.join(src, "Cargo.toml")).read().replace('"/repo/', '"%s/' % os.path.realpath(REPO)).replace('"/repo"', '"%s"' % os.path.realpath(REPO))
+    open(os.path.join(dst, "Cargo.toml"), "w").write(toml)
+    if os.path.exists(os.path.join(src, "Cargo.lock")):
+        shutil.copy(os.path.join(src, "Cargo.lock"), os.path.join(dst, "Cargo.lock"))
+    return dst
 
 ENV = dict(os.environ, CARGO_NET_OFFLINE="true", CARGO_TERM_COLOR="never")
 
@@ -57,7 +81,7 @@ def tree_hash():
 class Lock:
     def __init__(self, name):
         os.makedirs(BUILD, exist_ok=True)
-        self.path = os.path.join(BUILD, name + ".lock")
+        self.path = os.path.join(BUILD, name + ALT + ".lock")
 
     def __enter__(self):
         self.f = open(self.path, "w")
@@ -84,7 +108,7 @@ def mir_dump(cfg, crate, log=None):
         pkg, librs = CRATES[crate]
         os.utime(os.path.join(REPO, librs), None)
         cmd = ["cargo", "+nightly", "rustc", "--offline", "-p", pkg, "--lib",
-               "--target-dir", os.path.join(BUILD, "t-%s-%s" % (cfg, crate))]
+               "--target-dir", bdir("t-%s-%s" % (cfg, crate))]
         if feats and crate == "main":
             cmd += ["--features", feats]
         cmd += ["--", "-Zunpretty=mir", "-C", "overflow-checks=" + ovf, "-C", "debug-assertions=" + dbg]
@@ -104,7 +128,7 @@ def mir_dump(cfg, crate, log=None):
 
 def replay_binary(profile="dev", packed=False):
     """build (if needed) and return the path of the native replay driver"""
-    tdir = os.path.join(BUILD, "replay-target" + ("-packed" if packed else ""))
+    tdir = bdir("replay-target" + ("-packed" if packed else ""))
     with Lock("replay-" + profile + ("-packed" if packed else "")):
         cmd = ["cargo", "build", "--offline", "--target-dir", tdir]
         if profile == "release":
@@ -112,7 +136,7 @@ def replay_binary(profile="dev", packed=False):
         if packed:
             cmd += ["--features", "packed"]
         env = dict(ENV, RUSTFLAGS="--cfg fpdec_verif")      # hooks on (MANIFEST.hooks.guard)
-        p = subprocess.run(cmd, cwd=os.path.join(VERIF, "replay"), env=env,
+        p = subprocess.run(cmd, cwd=crate_dir("replay"), env=env,
                            stdout=subprocess.PIPE, stderr=subprocess.PIPE)
         if p.returncode != 0:
             sys.stderr.write(p.stderr.decode(errors="replace")[-3000:])
